@@ -231,6 +231,8 @@ func runC13(c *Ctx) {
 		c.R.RequireMin("R13.5", "entry points that normalise their argument", n5, 2)
 	}
 
+	checkV1KeysAndPaths(c, p, norm)
+
 	// R13.3
 	if fn := p.Func(scPkg, "(*matcher).withinConfidenceThreshold"); c.R.Anchor(fn != nil, "stringclassifier.(*matcher).withinConfidenceThreshold") {
 		ok, why := false, "no return of a comparison"
@@ -890,4 +892,296 @@ func reachesForward(b1, b2 *ssa.BasicBlock) bool {
 		return false
 	}
 	return dfs(b1)
+}
+
+
+// checkV1KeysAndPaths: three rules on the v1 string classifier.
+// R13.10 a string built from several run-time parts to serve as a map key keeps the parts apart: a format with two verbs
+// next to one another (or a concatenation of two run-time strings without a constant between them) gives the same key
+// for different parts ("lic1"+"150" and "lic11"+"50"), so a map that removes duplicates drops a match that is not one.
+// R13.11 where the exact scan found occurrences of a known value and reported them with confidence 1.0, the token search
+// for that value is not run as well: its ranges around an exact copy score 1.0 too, sort first and make the duplicate
+// removal drop the exact ones.
+// R13.12 the normalised text is handed on as it is: offsets and extents are positions in it, so a substring or a trimmed
+// copy of it must not take its place.
+func checkV1KeysAndPaths(c *Ctx, p *core.Prog, norm *ssa.Function) {
+	fns := pkgFuncs(p, scPkg)
+	// ---- R13.10 -----------------------------------------------------------------
+	nKeys, nBuilt := 0, 0
+	for _, fn := range fns {
+		for _, b := range fn.Blocks {
+			for _, in := range b.Instrs {
+				var key ssa.Value
+				switch x := in.(type) {
+				case *ssa.MapUpdate:
+					key = x.Key
+				case *ssa.Lookup:
+					if _, isMap := x.X.Type().Underlying().(*types.Map); isMap {
+						key = x.Index
+					}
+				}
+				if key == nil {
+					continue
+				}
+				nKeys++
+				if !isString(key.Type()) {
+					continue
+				}
+				if why := ambiguousStringBuild(key); why != "" {
+					nBuilt++
+					c.R.Fail("R13.10", core.ShortFn(fn)+": map key built from parts that run together", p.Pos(in.Pos()),
+						why+": different parts give the same key, so entries that differ are treated as one")
+				}
+			}
+		}
+	}
+	if nBuilt == 0 {
+		c.R.OK("R13.10", "stringclassifier: no map key is built from parts that run together", scPkg, fmt.Sprintf("%d map accesses examined", nKeys))
+	}
+	c.R.RequireMin("R13.10", "map accesses in stringclassifier", nKeys, 3)
+
+	// ---- R13.11 -----------------------------------------------------------------
+	// the token search (FindPotentialMatches, directly or in a helper) runs only where the exact scan (FindAllStringIndex,
+	// directly or in a helper) is known to have found nothing: a dominating test says its result is nil / empty
+	directly := func(f *ssa.Function, name string) bool {
+		if f == nil {
+			return false
+		}
+		for _, call := range core.CallsIn(f) {
+			if core.StaticCalleeName(call.Common()) == name {
+				return true
+			}
+		}
+		return false
+	}
+	const fuzzyName, exactName = ssPkg + ".FindPotentialMatches", "(*regexp.Regexp).FindAllStringIndex"
+	nExact := 0
+	for _, fn := range fns {
+		var fuzzy []ssa.CallInstruction
+		exactVals := map[ssa.Value]bool{}
+		for _, call := range core.CallsIn(fn) {
+			n := core.StaticCalleeName(call.Common())
+			cal := call.Common().StaticCallee()
+			inPkg := cal != nil && core.FuncPkgPath(cal) == scPkg
+			if n == fuzzyName || (inPkg && directly(cal, fuzzyName)) {
+				fuzzy = append(fuzzy, call)
+			}
+			if n == exactName || (inPkg && directly(cal, exactName)) {
+				if v, ok := call.(ssa.Value); ok {
+					exactVals[v] = true
+				}
+			}
+		}
+		if len(fuzzy) == 0 || len(exactVals) == 0 {
+			continue
+		}
+		for _, fz := range fuzzy {
+			if v, ok := fz.(ssa.Value); ok && exactVals[v] {
+				continue // one helper does both: it is examined itself
+			}
+			nExact++
+			guarded := false
+			for _, f := range core.FactsAtInstr(fz) {
+				// `found, ok := m.exactMatches(known); if !ok { ...token search... }`: the helper's boolean result is false
+				// only where its own scan found nothing
+				if ex, isEx := f.Cond.(*ssa.Extract); isEx && !f.Truth && exactVals[ex.Tuple] && isBool(ex.Type()) {
+					if call, isCall := ex.Tuple.(*ssa.Call); isCall && falseOnlyWhenScanEmpty(call.Call.StaticCallee(), ex.Index, exactName) {
+						guarded = true
+					}
+				}
+				cmp, ok := f.AsCmp()
+				if !ok {
+					continue
+				}
+				x, y := cmp.X, cmp.Y
+				if _, isC := x.(*ssa.Const); isC {
+					x, y = y, x
+				}
+				cst, isC := y.(*ssa.Const)
+				if !isC {
+					continue
+				}
+				// v == nil, or len(v) == 0 / len(v) < 1 / len(v) <= 0
+				if exactVals[x] && cst.IsNil() && cmp.Op == token.EQL {
+					guarded = true
+				}
+				if call, isCall := x.(*ssa.Call); isCall {
+					if bi, isB := call.Call.Value.(*ssa.Builtin); isB && bi.Name() == "len" && exactVals[call.Call.Args[0]] {
+						if k, okK := core.ConstInt(cst); okK && ((cmp.Op == token.EQL && k == 0) || (cmp.Op == token.LSS && k == 1) || (cmp.Op == token.LEQ && k == 0)) {
+							guarded = true
+						}
+					}
+				}
+			}
+			c.R.Check(guarded, "R13.11", core.ShortFn(fn)+": a value found verbatim is not searched for by token hashes as well", p.Pos(fz.Pos()),
+				"the token search stands behind `the exact scan found nothing`",
+				"the token search runs although the exact scan may have found (and reported, with confidence 1.0) occurrences of the same value: its wider ranges around a copy also score 1.0, sort first, and the duplicate removal then drops the exact occurrences")
+		}
+	}
+	c.R.RequireMin("R13.11", "token searches next to an exact scan", nExact, 1)
+
+	// ---- R13.12 -----------------------------------------------------------------
+	if norm == nil {
+		return
+	}
+	nN := 0
+	for _, fn := range fns {
+		if fn == norm {
+			continue
+		}
+		for _, call := range core.CallsIn(fn) {
+			if call.Common().StaticCallee() != norm {
+				continue
+			}
+			v, ok := call.(ssa.Value)
+			if !ok || v.Referrers() == nil {
+				continue
+			}
+			nN++
+			bad := ""
+			seen := map[ssa.Value]bool{}
+			var walk func(v ssa.Value)
+			walk = func(v ssa.Value) {
+				if seen[v] || v.Referrers() == nil {
+					return
+				}
+				seen[v] = true
+				for _, r := range *v.Referrers() {
+					switch x := r.(type) {
+					case *ssa.Phi:
+						walk(x)
+					case *ssa.Slice:
+						if x.X == v {
+							bad = "a substring of it is taken at " + p.Pos(x.Pos())
+						}
+					case *ssa.Call:
+						cal := x.Call.StaticCallee()
+						if cal != nil && cal.Pkg != nil && cal.Pkg.Pkg.Path() == "strings" && isString(x.Type()) {
+							bad = "it is passed through " + core.StaticCalleeName(&x.Call) + " at " + p.Pos(x.Pos())
+						}
+					}
+				}
+			}
+			walk(v)
+			c.R.Check(bad == "", "R13.12", core.ShortFn(fn)+": the normalised text is handed on as it is", p.Pos(call.Pos()), "no substring of it is taken and it is passed through no function of package strings",
+				"the result of normalize is transformed again ("+bad+"): offsets and extents are then positions in another string than the normalised unknown text")
+		}
+	}
+	c.R.RequireMin("R13.12", "calls of normalize outside normalize", nN, 2)
+}
+
+// ambiguousStringBuild: why a string value is an ambiguous encoding of its parts ("" if it is not, or not known to be).
+func ambiguousStringBuild(v ssa.Value) string {
+	switch x := v.(type) {
+	case *ssa.Call:
+		if core.StaticCalleeName(&x.Call) == "fmt.Sprintf" && len(x.Call.Args) > 0 {
+			if f, ok := core.ConstString(x.Call.Args[0]); ok {
+				prevVerb := false
+				for i := 0; i < len(f); i++ {
+					if f[i] != '%' {
+						prevVerb = false
+						continue
+					}
+					if i+1 < len(f) && f[i+1] == '%' {
+						i++
+						prevVerb = false
+						continue
+					}
+					j := i + 1
+					for j < len(f) && strings.ContainsRune("+-# 0123456789.[]*", rune(f[j])) {
+						j++
+					}
+					if prevVerb {
+						return fmt.Sprintf("fmt.Sprintf(%q) has two verbs with nothing between them", f)
+					}
+					prevVerb = true
+					i = j
+				}
+			}
+		}
+	case *ssa.BinOp:
+		if x.Op == token.ADD && isString(x.Type()) {
+			var parts []ssa.Value
+			var flat func(v ssa.Value)
+			flat = func(v ssa.Value) {
+				if b, ok := v.(*ssa.BinOp); ok && b.Op == token.ADD {
+					flat(b.X)
+					flat(b.Y)
+					return
+				}
+				parts = append(parts, v)
+			}
+			flat(x)
+			for i := 1; i < len(parts); i++ {
+				_, c1 := parts[i-1].(*ssa.Const)
+				_, c2 := parts[i].(*ssa.Const)
+				if !c1 && !c2 {
+					return "two run-time strings are concatenated with nothing between them"
+				}
+			}
+		}
+	}
+	return ""
+}
+
+
+// emptyScanFact: block b is reached only when a result of the named scan function (called in the same function) was found
+// nil or empty.
+func emptyScanFact(b *ssa.BasicBlock, scanName string) bool {
+	for _, f := range core.FactsAt(b) {
+		cmp, ok := f.AsCmp()
+		if !ok {
+			continue
+		}
+		x, y := cmp.X, cmp.Y
+		if _, isC := x.(*ssa.Const); isC {
+			x, y = y, x
+		}
+		cst, isC := y.(*ssa.Const)
+		if !isC {
+			continue
+		}
+		isScan := func(v ssa.Value) bool {
+			call, ok := v.(*ssa.Call)
+			return ok && core.StaticCalleeName(&call.Call) == scanName
+		}
+		if isScan(x) && cst.IsNil() && cmp.Op == token.EQL {
+			return true
+		}
+		if call, isCall := x.(*ssa.Call); isCall {
+			if bi, isB := call.Call.Value.(*ssa.Builtin); isB && bi.Name() == "len" && isScan(call.Call.Args[0]) {
+				if k, okK := core.ConstInt(cst); okK && ((cmp.Op == token.EQL && k == 0) || (cmp.Op == token.LSS && k == 1) || (cmp.Op == token.LEQ && k == 0)) {
+					return true
+				}
+			}
+		}
+	}
+	return false
+}
+
+// falseOnlyWhenScanEmpty: every return of g gives the constant false as result idx only where the scan found nothing, and
+// a constant otherwise.
+func falseOnlyWhenScanEmpty(g *ssa.Function, idx int, scanName string) bool {
+	if g == nil || len(g.Blocks) == 0 {
+		return false
+	}
+	n := 0
+	for _, b := range g.Blocks {
+		ret, ok := b.Instrs[len(b.Instrs)-1].(*ssa.Return)
+		if !ok || b == g.Recover {
+			continue
+		}
+		if idx >= len(ret.Results) {
+			return false
+		}
+		cst, isC := ret.Results[idx].(*ssa.Const)
+		if !isC || cst.Value == nil {
+			return false
+		}
+		n++
+		if cst.Value.ExactString() == "false" && !emptyScanFact(b, scanName) {
+			return false
+		}
+	}
+	return n > 0
 }
